@@ -154,7 +154,7 @@ pub struct Stats {
 #[derive(Clone, Debug)]
 pub struct Candidate {
     pub label: String,
-    pub trace: Vec<bool>,
+    pub trace: Vec<u8>,
     pub model: BTreeMap<String, String>,
     pub exact: bool,
     pub float: bool,
@@ -207,16 +207,16 @@ pub struct Engine {
     concrete: Option<BTreeMap<String, CVal>>,
     // per path
     pc: Vec<B>,
-    trace: Vec<bool>,
-    forced: Vec<bool>,
+    trace: Vec<u8>,
+    forced: Vec<u8>,
     fresh: u32,
     path_nontrivial: bool,
     path_oblig_labels: Vec<String>,
     div_log: Vec<(String, u32, u32)>,
-    path_implied: Vec<(String, B)>,
+    path_implied: Vec<(String, B, Vec<B>)>,
     implied_true: std::collections::HashSet<B>,
     // across paths
-    worklist: Vec<Vec<bool>>,
+    worklist: Vec<Vec<u8>>,
     pub stats: Stats,
     pub candidates: Vec<Candidate>,
     pub control_failures: Vec<String>,
@@ -1127,7 +1127,7 @@ pub fn decide(atom: B) -> bool { decide_at(atom, None) }
 
 /// Equalities that were taken as true on this path only because the solver showed the
 /// other side infeasible OVER THE REALS (the code relies on an exact cancellation there).
-pub fn implied_equalities() -> Vec<(String, B)> { with(|e| e.path_implied.clone()) }
+pub fn implied_equalities() -> Vec<(String, B, Vec<B>)> { with(|e| e.path_implied.clone()) }
 
 pub fn decide_at(atom: B, site: Option<String>) -> bool {
     // constant?
@@ -1144,7 +1144,8 @@ pub fn decide_at(atom: B, site: Option<String>) -> bool {
     if let Some(None) = forced {
         abort(Stop::Budget("undetermined decision in concrete mode".into()));
     }
-    let take = if let Some(Some(f)) = forced { f } else {
+    let mut implied = false;
+    let take = if let Some(Some(f)) = forced { implied = f & 2 != 0; f & 1 != 0 } else {
         // syntactic shortcut: atom or its negation already in the PC
         let neg = atom.clone().not();
         let known = with(|e| {
@@ -1166,23 +1167,24 @@ pub fn decide_at(atom: B, site: Option<String>) -> bool {
             if t_ok && f_ok {
                 with(|e| {
                     let mut p = e.trace.clone();
-                    p.push(false);
+                    p.push(0);
                     e.worklist.push(p);
                     e.stats.forks += 1;
                 });
                 true
             } else {
-                if t_ok && matches!(atom, B::Eq(..)) { with(|e| { e.implied_true.insert(atom.clone()); }); }
+                implied = true;
                 t_ok
             }
         }
     };
     with(|e| {
         e.stats.decisions += 1;
-        if take && e.implied_true.contains(&atom) {
-            e.path_implied.push((site.clone().unwrap_or_default(), atom.clone()));
+        if take && implied && matches!(atom, B::Eq(..)) {
+            let snap = e.pc.clone();
+            e.path_implied.push((site.clone().unwrap_or_default(), atom.clone(), snap));
         }
-        e.trace.push(take);
+        e.trace.push((take as u8) | if implied { 2 } else { 0 });
         let lit = if take { atom } else { atom.not() };
         if !e.pc.contains(&lit) { e.pc.push(lit); }
     });
@@ -1359,9 +1361,11 @@ impl Engine {
             if let Ok(o) = out {
                 let txt = String::from_utf8_lossy(&o.stdout).to_string();
                 let first = txt.lines().next().unwrap_or("").trim().to_string();
-                if !txt.contains("(error") {
-                    if first == "sat" { verdict = Verdict::Sat; } else if first == "unsat" { verdict = Verdict::Unsat; }
-                }
+                if std::env::var("VERIF_DEBUG").is_ok() && (txt.contains("(error") || !o.stderr.is_empty()) { eprintln!("cvc5: {} {}", txt, String::from_utf8_lossy(&o.stderr)); }
+                // an `(error` before the verdict makes the answer inconclusive; the one after an
+                // `unsat` is only get-value complaining that there is no model
+                if first == "unsat" { verdict = Verdict::Unsat; }
+                else if first == "sat" && !txt.contains("(error") { verdict = Verdict::Sat; }
                 if verdict == Verdict::Sat {
                     let rest: String = txt.lines().skip(1).collect::<Vec<_>>().join(" ");
                     let mut m = BTreeMap::new();
@@ -1642,6 +1646,6 @@ pub fn sample_query(b: &B) -> String {
     })
 }
 
-pub fn current_trace() -> Vec<bool> { with(|e| e.trace.clone()) }
+pub fn current_trace() -> Vec<u8> { with(|e| e.trace.clone()) }
 pub fn pc_len() -> usize { with(|e| e.pc.len()) }
 pub fn is_concrete() -> bool { with(|e| e.concrete.is_some()) }
